@@ -842,6 +842,17 @@ func (c *ExprCtx) call(x CCall) TV {
 			return TV{V: e.floatOp("fle", SBool, c.floatExpr(x.Args[0]), c.floatExpr(x.Args[1])), Typ: types.Typ[types.Bool]}
 		case "flt":
 			return TV{V: e.floatOp("flt", SBool, c.floatExpr(x.Args[0]), c.floatExpr(x.Args[1])), Typ: types.Typ[types.Bool]}
+		case "called":
+			// called(name): a call to name has been executed on this path before this point
+			n, ok := x.Args[0].(CIdent)
+			if !ok {
+				c.fail("called(name)")
+			}
+			key := "ghost:called:" + n.Name
+			if _, has := e.keySorts[key]; !has {
+				c.fail("called(%s): the contract does not track this callee (internal error)", n.Name)
+			}
+			return TV{V: e.get(c.st, key, SBool), Typ: types.Typ[types.Bool]}
 		case "ghost":
 			n, ok := x.Args[0].(CIdent)
 			if !ok {
